@@ -38,9 +38,110 @@ theorem nexus_no_hosts {κ : Type} (hash : κ → Nat) (c : Cfg) (id : κ) (h : 
     rcases this with e | e <;> simp [e]
   simp [addr, addrOfHash, this]
 
-/-- Idempotence: the answer depends on the subscriber id alone, so asking again gives the same address. -/
-theorem nexus_idempotent {κ : Type} (hash : κ → Nat) (c : Cfg) (id₁ id₂ : κ) (h : id₁ = id₂) :
-    addr hash c id₁ = addr hash c id₂ := by rw [h]
+/-! ### idempotence lives in the client (`AllocateIPForSubscriber` / `ReleaseSubscriberIP`) -/
+
+/-- A subscriber whose record carries an address is answered with that address and nothing changes —
+    whatever the pool and ISP records say now. -/
+theorem client_idempotent (s : Client.State) (k : Nat) (sub : Client.Sub) (a : Nat)
+    (hs : AMap.lookup s.subs k = some sub) (ha : sub.addr = some a) :
+    Client.alloc s k = (s, .okAddr a) := by
+  unfold Client.alloc
+  simp [hs, ha]
+
+/-- the address of subscriber k survives every operation except its own release and re-provisioning —
+    in particular every edit of a pool or ISP record and every allocation or release of other subscribers -/
+theorem client_addr_persists (s : Client.State) (k a : Nat) (op : Client.Op)
+    (hk : ∃ sub, AMap.lookup s.subs k = some sub ∧ sub.addr = some a)
+    (h1 : op ≠ .release k) (h2 : ∀ p i h, op ≠ .sub k p i h) :
+    ∃ sub, AMap.lookup (Client.step s op).1.subs k = some sub ∧ sub.addr = some a := by
+  obtain ⟨sub, hs, ha⟩ := hk
+  cases op with
+  | pool p c => exact ⟨sub, hs, ha⟩
+  | isp i f => exact ⟨sub, hs, ha⟩
+  | lookup k' => exact ⟨sub, hs, ha⟩
+  | sub k' p i h =>
+    have hne : k ≠ k' := fun e => h2 p i h (by rw [e])
+    refine ⟨sub, ?_, ha⟩
+    simp only [Client.step, AMap.lookup_insert, hne, if_false]
+    exact hs
+  | release k' =>
+    have hne : k ≠ k' := fun e => h1 (by rw [e])
+    refine ⟨sub, ?_, ha⟩
+    simp only [Client.step, Client.release]
+    split
+    · exact hs
+    · split
+      · exact hs
+      · simp only [AMap.lookup_insert, hne, if_false]; exact hs
+  | alloc k' =>
+    by_cases e : k = k'
+    · subst e
+      rw [show Client.step s (.alloc k) = Client.alloc s k from rfl, client_idempotent s k sub a hs ha]
+      exact ⟨sub, hs, ha⟩
+    · refine ⟨sub, ?_, ha⟩
+      simp only [Client.step, Client.alloc]
+      split
+      · exact hs
+      · split
+        · exact hs
+        · split
+          · exact hs
+          · split
+            · exact hs
+            · split
+              · exact hs
+              · simp only [AMap.lookup_insert, e, if_false]; exact hs
+
+/-- Idempotence over histories: a subscriber that holds an address and asks again — after ANY sequence
+    of pool-record edits, ISP-record edits and operations of other subscribers, as long as it was not
+    released or re-provisioned itself — receives the same address. -/
+theorem client_asks_again (s : Client.State) (k a : Nat) (ops : List Client.Op)
+    (hk : ∃ sub, AMap.lookup s.subs k = some sub ∧ sub.addr = some a)
+    (hops : ∀ op, op ∈ ops → op ≠ .release k ∧ ∀ p i h, op ≠ .sub k p i h) :
+    (Client.alloc (Client.run s ops) k).2 = .okAddr a := by
+  induction ops generalizing s with
+  | nil =>
+    obtain ⟨sub, hs, ha⟩ := hk
+    show (Client.alloc s k).2 = _
+    rw [client_idempotent s k sub a hs ha]
+  | cons op ops ih =>
+    simp only [Client.run, List.foldl_cons]
+    have h := hops op List.mem_cons_self
+    exact ih (Client.step s op).1 (client_addr_persists s k a op hk h.1 h.2)
+      (fun o ho => hops o (List.mem_cons_of_mem _ ho))
+
+/-- A newly computed address lies in the pool record it was computed from, as that record is at that
+    moment (host address: neither network nor broadcast). -/
+theorem client_new_in_range (s : Client.State) (k a : Nat) (sub : Client.Sub)
+    (hs : AMap.lookup s.subs k = some sub) (hn : sub.addr = none)
+    (h : (Client.alloc s k).2 = .okAddr a) :
+    ∃ p c, AMap.lookup s.pools p = some c ∧ addrOfHash c sub.hash = some a ∧
+      (c.base < 2 ^ 32 → c.net < a ∧ a + 1 < c.net + 2 ^ c.hostBits) := by
+  unfold Client.alloc at h
+  simp only [hs, hn] at h
+  split at h
+  · simp at h
+  · rename_i p hp
+    split at h
+    · simp at h
+    · rename_i c hc
+      split at h
+      · simp at h
+      · rename_i x hx
+        simp only [Client.Obs.okAddr.injEq] at h
+        subst h
+        refine ⟨p, c, hc, hx, fun hb => ?_⟩
+        exact nexus_in_range (fun (h : Nat) => h) c hb sub.hash x hx
+
+/-- Release clears the address; the next request computes it afresh (from the record as it is then). -/
+theorem client_release_clears (s : Client.State) (k : Nat) (sub : Client.Sub)
+    (hs : AMap.lookup s.subs k = some sub) :
+    Client.lookup (Client.release s k).1 k = .none := by
+  unfold Client.release Client.lookup
+  simp only [hs]
+  cases ha : sub.addr with
+  | none => simp [hs, ha]
+  | some a => simp
 
 /-- D1, the collision theorem (pigeonhole): for EVERY hash function and every family of subscriber
     ids, among any n > numHosts subscribers two are given the same address. -/
@@ -87,5 +188,9 @@ theorem D1_witness :
 example : GoodCfg { base := 0x0a0000c8, ones := 25 } := by unfold GoodCfg; decide
 example : ({ base := 0x0a000000, ones := 24 } : Cfg).numHosts ≠ 0 := by decide
 example : collide { base := 0x0a000000, ones := 24 } 5 6 = false := by decide
+/-- a pool-record edit between two requests of a holder does not change the answer -/
+example : (Client.alloc (Client.run Client.init
+    [.pool 1 { base := 0x0a000000, ones := 29 }, .sub 7 (some 1) none 12345, .alloc 7,
+     .pool 1 { base := 0x0a000100, ones := 29 }]) 7).2 = .okAddr 0x0a000004 := by decide
 
 end Bng.Spec.C01Nexus
